@@ -310,7 +310,7 @@ func c05GenOwners(r *kit.Rand) []schedulingv1alpha1.ReservationOwner {
 
 var (
 	c05CPU = []string{"0", "1m", "100m", "250m", "0.5", "500m", "999m", "1", "1001m", "1.5", "1500m", "2", "3", "4", "7", "8", "16", "64"}
-	c05Mem = []string{"0", "1", "100M", "128Mi", "1Gi", "1G", "1536Mi", "1.5Gi", "2Gi", "4Gi", "8Gi", "64Gi", "9007199254740993", "4611686018427387904"}
+	c05Mem = []string{"0", "1", "100M", "128Mi", "1Gi", "1G", "1536Mi", "0.5Gi", "1.5Gi", "2Gi", "2.5Gi", "4Gi", "8Gi", "64Gi", "9007199254740993", "4611686018427387904", "10000000000000000000"}
 	c05GPU = []string{"0", "1", "2", "4"}
 	c05Ext = []string{"0", "1", "1000", "1500", "4000", "32000"}
 )
